@@ -81,6 +81,11 @@ func c15Flows() []c15Flow {
 			final: func(s *world.Stack, w *world.World, t string, q bool) []world.Req {
 				return []world.Req{flows.OAuthStart(s, "B1", "google", "redir="+url.QueryEscape(t)), {Browser: "B1", Method: "GET", Path: "@oauth-callback"}}
 			}},
+		// the provider answers with an error: wherever the flow sends the browser then, it is on this site
+		{name: "oauth2-roundtrip+provider-error", modules: []string{"auth", "oauth2"}, queryOnly: true,
+			final: func(s *world.Stack, w *world.World, t string, q bool) []world.Req {
+				return []world.Req{flows.OAuthStart(s, "B1", "google", "redir="+url.QueryEscape(t)), {Browser: "B1", Method: "GET", Path: "@oauth-callback-error"}}
+			}},
 		// the parameter repeated next to a harmless same-site value: whichever occurrence the flow follows must be the one it vets
 		{name: "oauth2-roundtrip+dup-last", modules: []string{"auth", "oauth2"}, queryOnly: true,
 			final: func(s *world.Stack, w *world.World, t string, q bool) []world.Req {
@@ -115,6 +120,9 @@ func c15Strings(maxTok int, first int) []string {
 			// the longest strings are also tried with the foreign host appended (one more token, fixed)
 			if !strings.HasSuffix(prefix, "evil.test") {
 				out = append(out, prefix+"evil.test", prefix+"evil.test/?a=1", prefix+"\\evil.test")
+			}
+			if strings.HasSuffix(prefix, "site.test") {
+				out = append(out, prefix+"//evil.test/x") // an absolute URL of this very site whose path starts with two slashes
 			}
 			return
 		}
@@ -180,6 +188,9 @@ func c15Run(flow c15Flow, maxTok, first int, jsonMode bool, scheme string, dl ti
 				case "@oauth-callback":
 					st := w.Browsers["B1"].Session["oauth2_state"]
 					rq = flows.OAuthCallback(s, "B1", "google", st, "c:7", "")
+				case "@oauth-callback-error":
+					st := w.Browsers["B1"].Session["oauth2_state"]
+					rq = flows.OAuthCallback(s, "B1", "google", st, "", "access_denied")
 				}
 				if !sent {
 					break
